@@ -126,6 +126,15 @@ pub fn build_app_with_task_driver(
 /// (property C18).
 pub use crate::local_authority::verif_hooks as authority;
 
+/// C18: the real server-side recovery loop (`acquire_authority_lock_with_recovery` of server.rs).
+#[cfg(not(test))]
+pub async fn acquire_authority_lock_with_recovery(
+    data_dir: &std::path::Path,
+    workspace_root: &std::path::Path,
+) -> Result<crate::AuthorityLockGuard, String> {
+    crate::server::verif_acquire_authority_lock_with_recovery(data_dir, workspace_root).await
+}
+
 /// One function call as drained from the collector:
 /// `(output_index, call_id, item_id, name, arguments)`.
 pub type VerifCall = (u64, String, Option<String>, String, String);
@@ -229,4 +238,45 @@ pub fn compile_context_for_run(
         run,
         run_session_id,
     )
+}
+
+/// A background shell task spawned through the real `TaskEngine`, with the handle kept so that the
+/// harness can request its cancellation (property C11: a task cancelled while it is still queued
+/// behind the workspace lock).
+pub struct VerifTask {
+    handle: crate::tasks::TaskHandle,
+}
+
+impl VerifTask {
+    pub fn task_id(&self) -> String {
+        self.handle.task_id.clone()
+    }
+
+    /// The same call the `POST /tasks/{id}/cancel` handler makes.
+    pub fn cancel(&self, reason: &str) -> bool {
+        self.handle.cancel(reason.to_string())
+    }
+}
+
+pub fn spawn_shell_task_handle(
+    engine: &crate::SessionEngine,
+    tool: &str,
+    args: serde_json::Value,
+    pty: bool,
+) -> VerifTask {
+    let payload = crate::tasks::TaskSpawnPayload {
+        tool: tool.to_string(),
+        args,
+        title: None,
+        execution_mode: Some(if pty {
+            crate::tasks::ApiToolTaskExecutionMode::Pty
+        } else {
+            crate::tasks::ApiToolTaskExecutionMode::Pipes
+        }),
+        origin_session_id: None,
+    };
+    let tasks = engine.tasks();
+    let handle = tasks.create_task(&payload);
+    tasks.spawn_task(handle.clone(), payload);
+    VerifTask { handle }
 }
